@@ -257,6 +257,21 @@ def casings(rng, w):
     return [w.upper(), w.lower(), w.capitalize(), mixed]
 
 
+# legitimate joins of a starter word with the following word (static: the
+# oracle must not ask the rule table under test)
+STATIC_JOINS = {
+    'order': {'BY'}, 'group': {'BY'}, 'primary': {'KEY'},
+    'not': {'NULL', 'LIKE', 'ILIKE', 'RLIKE', 'REGEXP'},
+    'end': {'IF', 'LOOP', 'WHILE'}, 'union': {'ALL'},
+    'left': {'JOIN'}, 'inner': {'JOIN'}, 'double': {'PRECISION'},
+    'handler': {'FOR'}, 'create or': {'REPLACE'},
+    'nulls': {'FIRST', 'LAST'}, 'asc nulls': {'FIRST', 'LAST'},
+    'lateral view': {'EXPLODE', 'INLINE', 'PARSE_URL_TUPLE', 'POSEXPLODE',
+                     'STACK'},
+    'at time': {'ZONE'}, 'go': set(),
+}
+
+
 def boundary_at(text, pos):
     """Does the reference rule table put a token boundary at pos?"""
     off = 0
@@ -276,7 +291,8 @@ def check_word(rec, rng, w, dict_tt):
             ctxs.append((rng.choice(KW_AFTER_WORD),
                          rng.choice([' ', ';', ''])))
         for L, R in ctxs:
-            if len(L) > 1 and not boundary_at(L + spelled + R, len(L)):
+            if len(L) > 1 and spelled.upper() in STATIC_JOINS.get(
+                    L.strip(), ()):
                 rec.count('words_not_judged_(joined_by_a_multi_word_rule)')
                 continue
             text = L + spelled + R
